@@ -348,3 +348,7 @@ end Agd.ConnLimit
 #print axioms Agd.Tie.TrC18.translation_complete
 #print axioms Agd.Tie.TrC18.increment_tr
 #print axioms Agd.Tie.TrC18.decrement_tr
+#print axioms Agd.Tie.TrC18.decrement_broadcasts
+#print axioms Agd.Tie.TrC18.listener_close_releases_waiters
+#print axioms Agd.Tie.TrC18.accept_slot_accounting
+#print axioms Agd.Tie.TrC18.conn_released_once
